@@ -329,6 +329,10 @@ func symBundle(next int, allowFrag bool) (Bundle, []int) {
 			k = 1 + (k0+1+verif.Choose(nm("k", i), 7))%8
 		}
 		kinds = append(kinds, k)
+		if shards := verif.Param("shards", 1); shards > 1 && next >= 2 && i == 1 {
+			// the check configuration splits the pairs of block kinds over several workers
+			verif.Assume((k0*8+k)%shards == verif.Param("shard", 0))
+		}
 		bn := uint64(2 + i + 2*verif.Choose(nm("bn", i), 2)) // {2,4} then {3,5}
 		cbs = append(cbs, CanonicalBlock{
 			BlockNumber:       bn,
@@ -345,7 +349,7 @@ func symBundle(next int, allowFrag bool) (Bundle, []int) {
 // identical bytes.
 func H01_Bundle() {
 	registerRoutingBlocks()
-	next := verif.Size("next", 0, verif.Param("maxext", 1))
+	next := verif.Size("next", verif.Param("minext", 0), verif.Param("maxext", 1))
 	b, kinds := symBundle(next, true)
 	if b.CheckValid() != nil {
 		verif.Reach("invalid")
